@@ -19,8 +19,10 @@
        bill.Invoice ($regime from the supplier's tax country).
    Outside the modelled domain the result is `Dom` (the correspondence check counts and skips those):
    member names that only match a field case-insensitively, duplicate members of a struct, null where Go
-   keeps a zero value of a type with its own codec, date-times / uuids / signatures / floats / byte slices
-   that are not in the canonical spelling the library itself writes, legacy `tags` of bill.Tax.
+   keeps a zero value of a type with its own codec, signatures / floats / byte slices that are not in the
+   canonical spelling the library itself writes, legacy `tags` of bill.Tax.
+   uuid.UUID and cal.DateTime are read exactly (parse_uuid, parse_datetime): every spelling the forgiving Go
+   readers accept gives the canonical text, every other one is refused.
    Model only: no proofs in this file. *)
 From Coq Require Import String.
 From Coq Require Import List ZArith Strings.Byte Bool.
@@ -227,22 +229,75 @@ Definition parse_uuid (s : bytes) : option bytes :=
     match hex_run 32 s with Some (h, _) => Some (hyphenate h) | None => None end
   else None.
 
-(* ---- cal.DateTime ---- *)
-(* the form the library writes: YYYY-MM-DDTHH:MM:SS with a real calendar date and a real time of day *)
+(* ---- cal.DateTime: UnmarshalJSON (cal/date_time.go) over civil.ParseDateTime = time.Parse with the layout
+   "2006-01-02T15:04:05.999999999", then the same with a lower-case t; written by civil.DateTime.String ---- *)
+Definition text_zero_datetime : bytes := bs "0000-00-00T00:00:00".
 Definition two_digits (a b : byte) : option Z :=
   if is_digit a && is_digit b then Some (dv a * 10 + dv b) else None.
+(* the form the library writes: the zero text, or YYYY-MM-DDTHH:MM:SS with a real calendar date (year 0 is a
+   leap year) and a real time of day *)
 Definition canonical_datetime (s : bytes) : bool :=
+  eqb_bytes s text_zero_datetime ||
   match s with
   | [y1; y2; y3; y4; d1; m1; m2; d2; a1; a2; t; h1; h2; c1; n1; n2; c2; s1; s2] =>
-    Byte.eqb d1 c_dash && Byte.eqb d2 c_dash && Byte.eqb t x54 && Byte.eqb c1 x3a && Byte.eqb c2 x3a &&
+    Byte.eqb t x54 && Byte.eqb c1 x3a && Byte.eqb c2 x3a &&
     match parse_date [y1; y2; y3; y4; d1; m1; m2; d2; a1; a2], two_digits h1 h2, two_digits n1 n2, two_digits s1 s2 with
-    | Some d, Some h, Some n, Some sec =>
-      negb (d_year d =? 0) && eqb_bytes (print_date d) [y1; y2; y3; y4; d1; m1; m2; d2; a1; a2]
-      && (h <? 24) && (n <? 60) && (sec <? 60)
+    | Some d, Some h, Some n, Some sec => date_valid d && (h <? 24) && (n <? 60) && (sec <? 60)
     | _, _, _, _ => false
     end
   | _ => false
   end.
+
+(* what may follow the seconds (layout element .999999999): nothing, or '.' or ',' and one or more digits up to
+   the end of the text.  time.Parse keeps the first nine digits; the repository refuses a fraction that is not
+   zero (and so accepts ".000", ",0" and ".0000000009") *)
+Definition frac_sep (b : byte) : bool := Byte.eqb b x2e || Byte.eqb b x2c.
+Definition frac_zero (f : bytes) : bool :=
+  match f with
+  | [] => true
+  | p :: d :: r => frac_sep p && all_digits (d :: r) && forallb (fun b => Byte.eqb b b_zero) (firstn 9 (d :: r))
+  | _ => false
+  end.
+(* ":MM:SS" and the fraction, after an hour h: minute and second have exactly two digits *)
+Definition clock_rest (h : Z) (r : bytes) : option bytes :=
+  match r with
+  | c1 :: n1 :: n2 :: c2 :: s1 :: s2 :: f =>
+    match two_digits n1 n2, two_digits s1 s2 with
+    | Some n, Some sec =>
+      if Byte.eqb c1 x3a && Byte.eqb c2 x3a && (h <? 24) && (n <? 60) && (sec <? 60) && frac_zero f
+      then Some (pad2 h ++ x3a :: pad2 n ++ x3a :: pad2 sec)%list else None
+    | _, _ => None
+    end
+  | _ => None
+  end.
+(* the hour (layout element 15) is read by getnum(value, fixed = false): two digits, or ONE digit when the
+   byte behind it is not a digit *)
+Definition parse_clock (r : bytes) : option bytes :=
+  match r with
+  | h1 :: h2 :: r2 =>
+    if is_digit h1 then
+      (if is_digit h2 then clock_rest (dv h1 * 10 + dv h2) r2 else clock_rest (dv h1) (h2 :: r2))
+    else None
+  | _ => None
+  end.
+(* the text written for the value read from s (None: an error) *)
+Definition parse_datetime (s : bytes) : option bytes :=
+  if eqb_bytes s text_zero_datetime then Some s
+  else
+    match s with
+    | y1 :: y2 :: y3 :: y4 :: d1 :: m1 :: m2 :: d2 :: a1 :: a2 :: t :: r =>
+      match parse_date [y1; y2; y3; y4; d1; m1; m2; d2; a1; a2] with
+      | Some d =>
+        if date_valid d && (Byte.eqb t x54 || Byte.eqb t x74) then
+          match parse_clock r with
+          | Some c => Some (print_date d ++ x54 :: c)%list
+          | None => None
+          end
+        else None
+      | None => None
+      end
+    | _ => None
+    end.
 
 (* a compact JWS: three non-empty runs of base64url characters separated by two dots *)
 Definition is_b64url (b : byte) : bool :=
@@ -337,8 +392,8 @@ Definition reenc_leaf (l : leaf) (j : tv) : res tv :=
     end
   | LDate, TNull => Bad
   | LDate, _ => Bad
-  | LDateTime, TStr s => if canonical_datetime s then Ok (TStr s) else Dom
-  | LDateTime, _ => Dom
+  | LDateTime, TStr s => match parse_datetime s with Some c => Ok (TStr c) | None => Bad end
+  | LDateTime, _ => Bad          (* null too: the reader is handed the text null, reads "" from it and refuses that *)
   | LUUID, TStr s => match parse_uuid s with Some c => Ok (TStr c) | None => Bad end
   | LUUID, TNull => Ok (TStr [])
   | LUUID, _ => Bad
@@ -360,8 +415,9 @@ Definition zero_leaf (l : leaf) : res tv :=
   | LAmount => Ok (TStr [b_zero])
   | LPercentage => Ok (TStr text_zero_pct)
   | LDate => Ok (TStr text_zero_date)
+  | LDateTime => Ok (TStr text_zero_datetime)
   | LBytes => Ok TNull
-  | LDateTime | LSig | LOpaque _ => Dom
+  | LSig | LOpaque _ => Dom
   end.
 
 (* isEmptyValue on the value a leaf of this type was written from *)
